@@ -257,6 +257,10 @@ def skeleton(p, side, assign, stream, swallow, extra):
                 if prev:
                     items.append(("EXIT-IF", val(prev[-1]["cond"])))
                 continue
+            if e["how"] == "break":
+                # a search loop left by `break` whose chosen element is processed after the loop does what the loop body would have done before
+                # leaving by `return`: the items that follow are compared as they come
+                continue
             return None
         if e.under is not None and truth(canon_term(e.under, side, {}, extra), assign) is False:
             continue
